@@ -203,13 +203,14 @@ func (interp *Interpreter) pkgDir(goPath string, root, importPath string) (strin
 		return dir, rPath, nil // found!
 	}
 
-	dir = filepath.Join(goPath, "src", effectivePkg(root, importPath))
-
-	if _, err := fs.Stat(interp.opt.filesystem, dir); err == nil {
-		return dir, root, nil // found!
-	}
-
 	if root == "" {
+		// The vendor directories of all enclosing directories have been searched:
+		// fall back to GOPATH/src/importPath. A directory below root other than
+		// root/vendor/importPath is not a candidate.
+		dir = filepath.Join(goPath, "src", importPath)
+		if _, err := fs.Stat(interp.opt.filesystem, dir); err == nil {
+			return dir, root, nil // found!
+		}
 		if interp.context.GOPATH == "" {
 			return "", "", fmt.Errorf("unable to find source related to: %q. Either the GOPATH environment variable, or the Interpreter.Options.GoPath needs to be set", importPath)
 		}
